@@ -114,7 +114,7 @@ fn diff_multiset(exp: &[(i64, usize)], got: &[(i64, usize)]) -> String {
 pub fn check_sinks(run: &JobRun, reference: &RefOut) -> Result<(), String> {
     for (h, o) in run.hosts.iter().enumerate() {
         if let HostOutcome::Panicked(m) = o {
-            return Err(format!("host {h} panicked: {m}"));
+            return Err(format!("host {h} panicked: {m}; panics of the job: {:?}", run.ctx.panics.lock().unwrap()));
         }
     }
     let hosts: Vec<&Vec<SinkOut>> = run
